@@ -52,7 +52,7 @@ def _checks_for(rng, s):
     x = rng.random()
     if x < 0.45:
         return None, "none"
-    n = rng.choice([1, 2, 3, 5, 8])
+    n = rng.choice([1, 2, 3, 5, 8, 8, 33, 40])
     good = oracles.vt(s, n)
     if x < 0.75:
         return good, "correct"
@@ -76,6 +76,38 @@ def _width(rng, acc, start, s, fast):
 
 def generate(ctx):
     rng = ctx.rng
+    # one long walk per shard: its value has > 640 decimal digits, where the int<->str trap bites
+    for _ in range(ctx.pick(1, 2)):
+        k = rng.choice([1, 2])
+        acc = G.complete(k)
+        w = G.random_walk(acc, 0, rng.randint(1100, 1250), rng)
+        yield "decode", dict(gens.graph_case(acc, k), start=0, fast=False, fam="long", s=w, L=2 * len(w), check=None, stag="long walk", ctag="none")
+        bad = w[:500] + "N" + w[501:]
+        yield "decode", dict(gens.graph_case(acc, k), start=0, fast=False, fam="long", s=bad, L=2 * len(w), check=None, stag="long walk", ctag="none")
+    for _ in range(ctx.pick(30, 300)):
+        k = rng.choice([1, 2, 2, 3])
+        fast = rng.random() < 0.4
+        states, strings = [], []
+        first = None
+        for _s in range(rng.randint(2, 4)):
+            a = gens.arc_graph(rng, k, forbid3=fast)
+            if a is None:
+                continue
+            if first is None:
+                first = int(rng.choice(G.live_vertices(a)))
+            states.append(G.acc_to_hex(a))
+        if len(states) < 2:
+            continue
+        accs = [G.hex_to_acc(k, h) for h in states]
+        for i, a in enumerate(accs):
+            # walks of this state and of the other states (the latter are usually not walks here)
+            ss = []
+            for b in (a, accs[(i + 1) % len(accs)], accs[i - 1]):
+                if (b[first] >= 0).any():
+                    ss.append(G.random_walk(b, first, rng.randint(1, 8), rng))
+            ss.append(gens.random_dna(rng, rng.randint(1, 5)))
+            strings.append(ss)
+        yield "edit_sequence", dict(k=k, fast=fast, states=states, strings=strings, start=first, L=64)
     ks = ctx.pick([1, 2, 2, 3, 4], [1, 2, 2, 3, 3, 4, 5])
     for gi in range(ctx.pick(600, 6000)):
         k = rng.choice(ks)
@@ -144,12 +176,34 @@ def generate(ctx):
             strings.append(("extended", w + gens.random_dna(rng, rng.randint(1, 6))))
             for tag, s in strings:
                 check, ctag = _checks_for(rng, s)
-                yield "decode", dict(base, s=s, L=_width(rng, acc, start, s, fast), check=check, stag=tag, ctag=ctag)
+                yield "decode", dict(base, s=s, L=_width(rng, acc, start, s, fast), check=check, stag=tag, ctag=ctag,
+                                     npstr=rng.random() < 0.15, layout=rng.choice([None] * 9 + ["F"]))
 
 
-def check_decode(ctx, case):
+def check_edit_sequence(ctx, case):
+    """G2: the same accessor object is overwritten in place between decode calls; each verdict must follow the walks of
+    the *current* content."""
+    k = case["k"]
+    live = G.hex_to_acc(k, case["states"][0])
+    for i, arcs in enumerate(case["states"]):
+        live[...] = G.hex_to_acc(k, arcs)
+        for s in case["strings"][i]:
+            sub = dict(k=k, arcs=arcs, start=case["start"], fast=case["fast"], s=s, L=case["L"], check=None, stag="edit-sequence",
+                       ctag="none", fam="edit-sequence")
+            before = ctx.violation_count
+            check_decode(ctx, sub, acc_obj=live)
+            if ctx.violation_count > before:
+                ctx.violations[-1]["check"], ctx.violations[-1]["case"] = "edit_sequence", case
+                return
+    ctx.cls("edit sequences (same accessor object overwritten in place)")
+    ctx.done("edit_sequence", case, True)
+
+
+def check_decode(ctx, case, acc_obj=None):
     dsw = import_dsw()
-    acc = gens.acc_of(case)
+    acc = gens.acc_of(case) if acc_obj is None else acc_obj
+    if case.get("layout") == "F":
+        acc = np.asfortranarray(acc)
     s, L, start, fast, check = case["s"], case["L"], case["start"], case["fast"], case["check"]
     w = G.walk(acc, start, s)
     acgt = all(c in "ACGT" for c in s)
@@ -165,8 +219,11 @@ def check_decode(ctx, case):
             ctx.cls("fast|not-judged(prefix carries more bits than requested)")
             return
     expect_return = w["ok"] and check_ok
-    out = monitored(dsw.decode, decode_budget(len(s), L), s, L, acc, start, is_faster=fast, vt_check=check)
+    passed_check = np.str_(check) if (check is not None and case.get("npstr")) else check
+    out = monitored(dsw.decode, decode_budget(len(s), L), s, L, acc, start, is_faster=fast, vt_check=passed_check)
     mode = "fast" if fast else "normal"
+    if case.get("npstr") and check is not None:
+        ctx.cls("check passed as numpy.str_")
     if expect_return:
         if out.kind != "ok":
             ctx.fail("valid-walk-rejected", "%s decode(%r, L=%d, check=%r) %s although the string is a walk%s" % (
@@ -191,10 +248,13 @@ def check_decode(ctx, case):
         ctx.cls("%s|rejected|%s" % (mode, why))
     ctx.cls("string|" + case["stag"])
     ctx.cls("check|" + case["ctag"])
-    ctx.done("decode", case, len(s) > 0)
+    if acc_obj is None:
+        ctx.done("decode", case, len(s) > 0)
+    else:
+        ctx.evaluations += 1
 
 
-CHECKS = {"decode": check_decode}
+CHECKS = {"decode": check_decode, "edit_sequence": check_edit_sequence}
 
 
 def floors(agg, tier):
@@ -207,6 +267,10 @@ def floors(agg, tier):
                 out.append("%s observed %d < 50" % (name, c.get(name, 0)))
         if c.get(mode + "|accepted", 0) < 200:
             out.append("%s accepted walks %d < 200" % (mode, c.get(mode + "|accepted", 0)))
+    for name, need in (("edit sequences (same accessor object overwritten in place)", 100), ("check passed as numpy.str_", 500),
+                       ("string|long walk", 20)):
+        if c.get(name, 0) < need:
+            out.append("%s observed %d < %d" % (name, c.get(name, 0), need))
     if not any(k.startswith("probe-hits:decode:raise") for k in agg["monitors"]):
         out.append("no raise statement of decode was observed by the line probes")
     return out
